@@ -383,8 +383,36 @@ def bind_args(fnode, call, bound=False):
 _UNDEC = object()
 
 
+class OneOf:
+    """a name known to hold one of a few literals (different labels set on different branches)"""
+
+    def __init__(self, vals):
+        self.vals = tuple(vals)
+
+    def __eq__(self, o):
+        return isinstance(o, OneOf) and set(map(repr, self.vals)) == set(map(repr, o.vals))
+
+    def __hash__(self):
+        return hash(tuple(sorted(map(repr, self.vals))))
+
+
 def const_test(e, consts):
     """evaluate a test expression under known constants; _UNDEC if it cannot be decided"""
+    alts = [k for k, v in consts.items() if isinstance(v, OneOf)]
+    if alts and any(isinstance(n, ast.Name) and n.id in alts for n in ast.walk(e)):
+        # decided when every alternative gives the same answer
+        k = next(a for a in alts if any(isinstance(n, ast.Name) and n.id == a for n in ast.walk(e)))
+        res = []
+        for v in consts[k].vals:
+            c2 = dict(consts)
+            c2[k] = v
+            res.append(const_test(e, c2))
+        if any(r is _UNDEC for r in res):
+            return _UNDEC
+        truth = [bool(r) for r in res]
+        if all(truth) or not any(truth):
+            return res[0] if all(repr(r) == repr(res[0]) for r in res) else truth[0]
+        return _UNDEC
     if isinstance(e, ast.Constant):
         return e.value
     if isinstance(e, ast.Name):
@@ -1007,6 +1035,20 @@ def access_path(e, tables):
 def prune(body, consts):
     """copy of `body` in which every `if` decidable under `consts` is replaced by the taken branch, recursively inside loops,
     try and with blocks (compound nodes are shallow-copied, simple statements are shared with the original tree)."""
+    return _prune(body, consts)[0]
+
+
+def _assigned_names(stmts):
+    out = set()
+    for s in stmts:
+        for n in ast.walk(s):
+            if isinstance(n, ast.Name) and isinstance(n.ctx, (ast.Store, ast.Del)):
+                out.add(n.id)
+    return out
+
+
+def _prune(body, consts):
+    """-> (pruned statements, constants known after them)"""
     out = []
     consts = dict(consts)
 
@@ -1020,42 +1062,85 @@ def prune(body, consts):
     for s in body:
         if ends(out):
             break           # code after a decided early exit is unreachable under these constants
-        if isinstance(s, ast.Assign) and len(s.targets) == 1 and isinstance(s.targets[0], ast.Name) and isinstance(s.value, (ast.Compare, ast.BoolOp, ast.UnaryOp, ast.Name)):
-            v = const_test(s.value, consts)
-            if v is not _UNDEC and isinstance(v, bool):
-                consts[s.targets[0].id] = v      # a flag derived from the seeded constants
+        if isinstance(s, ast.Assign) and len(s.targets) == 1 and isinstance(s.targets[0], ast.Name):
+            nm = s.targets[0].id
+            if isinstance(s.value, (ast.Compare, ast.BoolOp, ast.UnaryOp, ast.Name, ast.Attribute)):
+                v = const_test(s.value, consts)
+                if v is not _UNDEC and (isinstance(v, (bool, str, OneOf)) or v is None):
+                    consts[nm] = v      # a flag derived from the seeded constants / a local name for a seeded attribute
+                else:
+                    consts.pop(nm, None)
+            elif isinstance(s.value, ast.Constant) and (s.value.value is None or isinstance(s.value.value, (str, bool))) and nm not in ("self",):
+                consts[nm] = s.value.value          # a label / flag set to a literal
             else:
-                consts.pop(s.targets[0].id, None)
+                consts.pop(nm, None)
+        elif isinstance(s, (ast.Assign, ast.AugAssign, ast.AnnAssign, ast.For, ast.With)) or isinstance(s, ast.Delete):
+            tg = []
+            if isinstance(s, ast.Assign):
+                tg = s.targets
+            elif isinstance(s, (ast.AugAssign, ast.AnnAssign)):
+                tg = [s.target]
+            elif isinstance(s, ast.For):
+                tg = [s.target]
+            for t in tg:
+                for n in ast.walk(t):
+                    if isinstance(n, ast.Name) and isinstance(n.ctx, (ast.Store, ast.Del)):
+                        consts.pop(n.id, None)
         if isinstance(s, ast.If):
             t = const_test(s.test, consts)
             if t is not _UNDEC:
-                out.extend(prune(s.body if t else s.orelse, consts))
+                sub, consts = _prune(s.body if t else s.orelse, consts)
+                out.extend(sub)
                 continue
             n = copy.copy(s)
-            n.body = prune(s.body, consts) or [ast.Pass()]
-            n.orelse = prune(s.orelse, consts)
+            b1, c1 = _prune(s.body, consts)
+            b2, c2 = _prune(s.orelse, consts)
+            n.body = b1 or [ast.Pass()]
+            n.orelse = b2
             out.append(n)
+            # what both continuing branches agree on
+            live = [c for b_, c in ((b1, c1), (b2, c2)) if not ends(b_)]
+            if not live:
+                live = [c1, c2]
+            merged = {}
+            for k in set().union(*[set(c) for c in live]):
+                vals = [c.get(k, _UNDEC) for c in live]
+                if all(v is not _UNDEC and v == vals[0] and type(v) is type(vals[0]) for v in vals):
+                    merged[k] = vals[0]
+                elif all(v is not _UNDEC for v in vals) and all(isinstance(v, OneOf) or v is None or isinstance(v, (str, bool)) for v in vals):
+                    flat = []
+                    for v in vals:
+                        for x in (v.vals if isinstance(v, OneOf) else (v,)):
+                            if not any(repr(x) == repr(y) for y in flat):
+                                flat.append(x)
+                    if len(flat) <= 4:
+                        merged[k] = OneOf(flat) if len(flat) > 1 else flat[0]
+            consts = merged
         elif isinstance(s, (ast.For, ast.While, ast.With)):
             n = copy.copy(s)
-            n.body = prune(s.body, consts) or [ast.Pass()]
+            inner = {k: v for k, v in consts.items() if k not in _assigned_names(s.body + getattr(s, "orelse", []))} if not isinstance(s, ast.With) else consts
+            n.body = _prune(s.body, inner)[0] or [ast.Pass()]
             if hasattr(s, "orelse"):
-                n.orelse = prune(s.orelse, consts)
+                n.orelse = _prune(s.orelse, inner)[0]
             out.append(n)
+            consts = {k: v for k, v in consts.items() if k not in _assigned_names(s.body + getattr(s, "orelse", []))}
         elif isinstance(s, ast.Try):
             n = copy.copy(s)
-            n.body = prune(s.body, consts) or [ast.Pass()]
-            n.orelse = prune(s.orelse, consts)
-            n.finalbody = prune(s.finalbody, consts)
+            inner = {k: v for k, v in consts.items() if k not in _assigned_names(s.body + s.orelse + s.finalbody + [y for h in s.handlers for y in h.body])}
+            n.body = _prune(s.body, inner)[0] or [ast.Pass()]
+            n.orelse = _prune(s.orelse, inner)[0]
+            n.finalbody = _prune(s.finalbody, inner)[0]
             hs = []
             for h in s.handlers:
                 hh = copy.copy(h)
-                hh.body = prune(h.body, consts) or [ast.Pass()]
+                hh.body = _prune(h.body, inner)[0] or [ast.Pass()]
                 hs.append(hh)
             n.handlers = hs
             out.append(n)
+            consts = inner
         else:
             out.append(_prune_ifexp(s, consts))
-    return out
+    return out, consts
 
 
 def _prune_ifexp(s, consts):
